@@ -202,9 +202,9 @@ func namedTypeName(t types.Type) string {
 		return o.Name()
 	}
 	if o.Pkg().Path() == modPath {
-		return "." + o.Name()
+		return "." + tname(o)
 	}
-	return strings.TrimPrefix(o.Pkg().Path(), modPath+"/") + "." + o.Name()
+	return strings.TrimPrefix(o.Pkg().Path(), modPath+"/") + "." + tname(o)
 }
 
 // isVerifyInvoke reports whether i is an interface invoke of
